@@ -8,7 +8,7 @@ the absence of every other diagnostic.  Malformed family: one stray ELSE/ELSEIF/
 ENDCASE or one deleted closer must give at least one error and exit status 2, never a signal.
 """
 import re
-from vf import engine, asl
+from vf import engine, asl, pfile
 from vf import condmodel as cm
 from vf.gen import composite
 
@@ -43,17 +43,30 @@ ASSUMPTIONS = [
 ]
 
 ENUM_BATCH = 400
+ENUM_STRIDE = 8
+ENUM_CPUS = [i for i, n in enumerate(cm.CPU_NAMES) if cm.CPUS[n]["limit"] >= 32 * ENUM_BATCH + 64]
 
 
 def budget(tier):
-    return dict(examples=16 if tier == "quick" else 60000, shards=16)
+    return dict(examples=3200 if tier == "quick" else 60000, shards=16)
 
 
 # ------------------------------------------------------------------ execution helpers
 
+_DIAG = re.compile(r"^> > > (?P<pos>.*?): (?P<kind>error|warning|fatal error|fatal)(?: #(?P<num>\d+))?: (?P<msg>.*)$", re.M)
+
+
 def _diag(r):
-    ds = asl.diagnostics(r.err + "\n" + r.out)
-    return [d for d in ds if d["kind"] == "error"], [d for d in ds if d["kind"] == "warning"]
+    """(errors, warnings) of a run with -n.  Own parser: positions inside IRP ('t.asm(62) IRP:3(4)') and
+    messages without a source position ('> > > INTERNAL: error #1470: missing ENDIF/ENDCASE' at the end of a
+    pass) must be counted as well; fatal errors count as errors."""
+    errs, warns = [], []
+    for m in _DIAG.finditer(r.err + "\n" + r.out):
+        pm = re.match(r"([^\s(]+)\((\d+)\)", m.group("pos"))
+        d = dict(file=pm.group(1) if pm else m.group("pos"), line=int(pm.group(2)) if pm else 0,
+                 num=int(m.group("num")) if m.group("num") else None, msg=m.group("msg"), pos=m.group("pos"))
+        (warns if m.group("kind") == "warning" else errs).append(d)
+    return errs, warns
 
 
 def run_program(prog, args=()):
@@ -73,12 +86,18 @@ def compare(prog, r):
     if r.p is None:
         return "no code file", brief
     try:
-        got = {a: b for (seg, a), b in r.bytemap().items() if seg == 1}
-        other = [k for k in r.bytemap() if k[0] != 1]
-    except Exception as e:       # pfile.FormatError
+        bm = r.bytemap()
+    except pfile.FormatError as e:
         return "code file unreadable: %s" % e, brief
-    if other:
+    if any(seg != 1 for seg, _ in bm):
         return "bytes outside the CODE segment", brief
+    got = {a: b for (seg, a), b in bm.items()}
+    unit = cm.CPUS[prog.cpu].get("unit", 1)
+    if unit == 2:
+        # OLMS-50: DATA lays down one 16-bit code word per value (little endian in the code file)
+        if any(a % 2 and b for a, b in got.items()) or any((a ^ 1) not in got for a in got):
+            return "OLMS-50 code words with a non-zero high byte", brief
+        got = {a // 2: b for a, b in got.items() if a % 2 == 0}
     if got != prog.expect:
         for idx, call, base, out in prog.slots:
             size = len(out)
@@ -116,7 +135,7 @@ _ENUMS = {}
 
 def enum(single):
     if single not in _ENUMS:
-        _ENUMS[single] = cm.Enum(single)
+        _ENUMS[single] = cm.Enum(bool(single))
     return _ENUMS[single]
 
 
@@ -128,7 +147,8 @@ def exec_enum(case):
     prog = cm.Program(cpu, items, twopass=bool(case.get("twopass")), style=case.get("style", 0), slot=32)
     nt = sum(1 for s in prog.item_stats if s["nested_nonfirst"] or s["overlap"])
     classes = ["enum", "enum-single" if case["single"] else "enum-full", "cpu:" + cpu,
-               "enumnt=%d" % nt, "enumn=%d" % len(items)]
+               "enumnt=%d/%s" % (nt, "single" if case["single"] else "full"),
+               "enumn=%d/%s" % (len(items), "single" if case["single"] else "full")]
     r = run_program(prog)
     if r.timed_out:
         return engine.inconclusive("timeout", classes)
@@ -150,23 +170,452 @@ def exec_enum(case):
 
 def fixed_cases(tier):
     out = []
-    e1 = enum(True)
-    for n, lo in enumerate(range(0, e1.total, ENUM_BATCH)):
-        out.append(dict(kind="enum", single=1, lo=lo, hi=lo + ENUM_BATCH, cpu=n % len(cm.CPU_NAMES) if n % 3 == 0 else 0,
+    ncpu = len(ENUM_CPUS)
+    e1 = enum(1)
+    n = 0
+    for lo in range(0, e1.total, ENUM_BATCH):
+        out.append(dict(kind="enum", single=1, lo=lo, hi=lo + ENUM_BATCH, cpu=ENUM_CPUS[n % ncpu] if n % 3 == 0 else 0,
                         style=n, twopass=n % 2))
+        n += 1
+    e2 = enum(0)
+    if tier == "quick":
+        # systematic 1-in-ENUM_STRIDE sample of the full two-level space (the full space runs in the thorough tier)
+        span = ENUM_BATCH * ENUM_STRIDE
+        for lo in range(0, e2.total, span):
+            out.append(dict(kind="enum", single=0, lo=lo + (n % ENUM_STRIDE), hi=lo + span, step=ENUM_STRIDE,
+                            cpu=ENUM_CPUS[n % ncpu] if n % 3 == 0 else 0, style=n, twopass=n % 2))
+            n += 1
+    else:
+        for lo in range(0, e2.total, ENUM_BATCH):
+            out.append(dict(kind="enum", single=0, lo=lo, hi=lo + ENUM_BATCH, cpu=ENUM_CPUS[n % ncpu] if n % 3 == 0 else 0,
+                            style=n, twopass=n % 2))
+            n += 1
+    out += REGRESSIONS
     return out
+
+
+def coverage_extra(tier, classes):
+    def total(prefix, tag):
+        return sum(int(k.split("=")[1].split("/")[0]) * v for k, v in classes.items()
+                   if k.startswith(prefix + "=") and k.endswith("/" + tag))
+    e1, e2 = enum(1), enum(0)
+    done1, done2 = total("enumn", "single"), total("enumn", "full")
+    return dict(exhaustive=[
+        dict(space="all skeletons with <= 2 nesting levels, <= 3 branches per construct (IF ladder or SWITCH, "
+                   "conditional branches + default), at most one level-1 branch holding a nested construct, "
+                   "x all truth assignments", size=e1.total, executed=done1, exhaustive=done1 == e1.total,
+             nontrivial_pairs=total("enumnt", "single")),
+        dict(space="all skeletons with <= 2 nesting levels, <= 3 branches per construct, every level-1 branch "
+                   "empty or holding any level-2 construct, x all truth assignments", size=e2.total,
+             executed=done2, exhaustive=done2 == e2.total, nontrivial_pairs=total("enumnt", "full"),
+             note=None if done2 == e2.total else "systematic 1-in-%d sample in this tier" % ENUM_STRIDE)])
+
+
+# ------------------------------------------------------------------ sampled programs
+
+INT_POOLS = [[0, 1, 2, 3], [5, 4, 6, -1], [4294967296, 0, 4294967297, 1], [255, -1, 256, -256],
+             [2147483648, -2147483648, 0, 2147483647]]
+FLT_POOL = ["1.5", "0.5", "2.25", "-1.5", "1.0", "3.0"]
+STR_POOL = ["abc", "ABC", "abd", "ab", "abcd", ""]
+ARGV = ["", "x", "", "1", "foo", ""]
+
+
+def g_atom(d, env, small=False):
+    if env.get("irp") and d.bool(0.35):
+        return ["p"]
+    if small:
+        return ["s", d.choice(["K0", "K1", "K5", "KM1"])] if d.bool(0.4) else ["n", d.choice([0, 1, 5, -1, 2, 255])]
+    if d.bool(0.4):
+        return ["s", d.choice(["K0", "K1", "K5", "KM1", "CLIA", "CLIB"])]
+    return ["n", d.choice([0, 1, 0, 5, -1, 2, 4, 6, 255, -128, 65536, 2147483647, -2147483647])]
+
+
+def g_expr(d, env, depth=0):
+    k = d.weighted([(4, "atom"), (4, "cmp"), (2, "logic"), (1, "arith"), (3, "def"), (1, "scmp")])
+    if k == "atom":
+        return g_atom(d, env)
+    if k == "cmp":
+        return ["cmp", d.choice(["==", "=", "<>", "<", ">", "<=", ">="]), g_atom(d, env), g_atom(d, env)]
+    if k == "logic":
+        if depth >= 2:
+            return g_atom(d, env)
+        op = d.choice(["and", "or", "xor", "not"])
+        if op == "not":
+            return ["not", g_expr(d, env, depth + 1)]
+        return [op, g_expr(d, env, depth + 1), g_expr(d, env, depth + 1)]
+    if k == "arith":
+        return [d.choice(["add", "sub"]), g_atom(d, env, True), g_atom(d, env, True)]
+    if k == "def":
+        return ["def", g_name(d, env)]
+    return ["scmp", d.choice(["==", "<>", "="]), g_value(d, env, "s", None), g_value(d, env, "s", None)]
+
+
+def g_name(d, env):
+    """a symbol name for IFDEF/DEFINED: a leaf symbol that may or may not get defined, a constant, a -D
+    symbol, or a name that is never defined"""
+    k = d.weighted([(6, "leaf"), (2, "const"), (2, "undef"), (1, "cli")])
+    if k == "leaf" and env["names"]:
+        return d.choice(env["names"])
+    if k == "const":
+        return d.choice(["K0", "K5", "STRA", "FLH", "k1"])
+    if k == "cli":
+        return d.choice(["CLIA", "CLIB", "clia"])
+    return d.choice(cm.UNDEF)
+
+
+def g_value(d, env, ty, pool):
+    if ty == "i":
+        if env.get("irp") and d.bool(0.3):
+            return ["p"]
+        v = d.choice(pool)
+        f = d.weighted([(6, "n"), (2, "sym"), (2, "arith")])
+        if f == "sym":
+            for name, val in (("K0", 0), ("K1", 1), ("K5", 5), ("KM1", -1), ("KBIG", 4294967296)):
+                if val == v:
+                    return ["s", name]
+        if f == "arith":
+            a = d.choice([1, 2, 5])
+            return ["add", ["n", v - a], ["n", a]] if d.bool() else ["sub", ["n", v + a], ["n", a]]
+        return ["n", v]
+    if ty == "f":
+        v = d.choice(FLT_POOL)
+        if v == "1.5" and d.bool(0.5):
+            return ["s", "FLH"] if d.bool() else ["fadd", "0.5", "1.0"]
+        if v == "2.25" and d.bool(0.4):
+            return ["fadd", "0.25", "2.0"]
+        return ["f", v]
+    v = d.choice(STR_POOL)
+    if v == "abc" and d.bool(0.5):
+        return ["s", "STRA"] if d.bool() else ["cat", "ab", "c"]
+    return ["str", v]
+
+
+def g_cond(d, env):
+    mac = env["mac"]
+    k = d.weighted([(6, "if"), (4, "def"), (2, "used"), (2, "ex"), (6 if mac else 1, "b")])
+    if k == "if":
+        return {"k": "if", "e": g_expr(d, env)}
+    if k == "def":
+        return {"k": "def", "s": g_name(d, env), "n": int(d.bool(0.4))}
+    if k == "used":
+        return {"k": "used", "s": d.choice(cm.USYMS + cm.USYMS + cm.UNDEF), "n": int(d.bool(0.4))}
+    if k == "ex":
+        return {"k": "ex", "f": d.int(0, len(cm.EXIST_FORMS) - 1), "n": int(d.bool(0.4))}
+    n = d.weighted([(1, 0), (3, 1), (4, 2), (3, 3), (2, 4)])
+    args = []
+    for _ in range(n):
+        if mac and d.bool(0.8):
+            args.append(d.int(0, mac - 1))
+        else:
+            args.append(d.choice(["", "", "x", "1"]))
+    return {"k": "b", "a": args, "n": int(d.bool(0.4))}
+
+
+def g_leaf(d, env):
+    lf = {"t": "L", "id": 0}
+    if env.get("nodef"):
+        df = "none"
+    else:
+        df = d.weighted([(6, "lab"), (0 if env["mac"] else 3, "equ"), (1, "none")])
+    if df != "lab":
+        lf["df"] = df
+    if d.bool(0.12):
+        lf["use"] = d.int(0, 3)
+    if env["poison"] and d.bool(0.3):
+        lf["po"] = d.int(0, len(cm.POISON) - 1)
+    if env.get("exitm") and d.bool(0.04):
+        lf["x"] = 1
+    return lf
+
+
+def g_body(d, env, depth, budget):
+    body = [g_leaf(d, env)]
+    budget[0] -= 1
+    n = 0
+    while depth <= env["maxdepth"] and budget[0] > 3 and n < 2 and d.bool(0.75 if depth == 1 else 0.45):
+        el = g_construct(d, env, depth, budget)
+        if env["wrap"] and d.bool(0.1):
+            if d.bool():
+                el = {"t": "N", "b": [el]}
+            else:
+                el = {"t": "R", "b": [el]}
+                for lf in cm.leaves_of([el]):
+                    lf["df"] = "none"         # labels inside REPT may be local to the repetition
+        body.append(el)
+        body.append(g_leaf(d, env))
+        budget[0] -= 1
+        n += 1
+    return body
+
+
+def g_construct(d, env, depth, budget):
+    sub = lambda: g_body(d, env, depth + 1, budget)
+    nb = d.weighted([(3, 1), (4, 2), (3, 3), (2, 4), (1, 5)])
+    dflt = d.bool(0.5)
+    if dflt and nb > 1:
+        nb -= 1
+    elif nb == 5:
+        dflt = False
+    pc = env["poison"] and not env["mac"] and not env.get("irp") and not env.get("nodef")
+    if d.bool(0.6):
+        n = {"t": "I", "c": g_cond(d, env), "b": sub(), "ei": [], "el": None}
+        if pc and d.bool(0.25):
+            n["pc"] = d.int(0, len(cm.PCOND) - 1)
+        for _ in range(nb - 1):
+            ei = {"e": g_expr(d, env), "b": sub()}
+            if pc and d.bool(0.25):
+                ei["pc"] = d.int(0, len(cm.PCOND) - 1)
+            n["ei"].append(ei)
+        if dflt:
+            n["el"] = sub()
+        return n
+    ty = d.weighted([(5, "i"), (2, "f"), (3, "s")])
+    pool = d.choice(INT_POOLS) if ty == "i" else None
+    if env.get("irp") and ty == "i":
+        pool = INT_POOLS[0]
+    n = {"t": "S", "sel": g_value(d, env, ty, pool), "pre": None, "cs": [], "el": None}
+    if pc and d.bool(0.25):
+        n["pc"] = d.int(0, len(cm.PCOND) - 1)
+    if d.bool(0.15):
+        n["pre"] = [g_leaf(d, env)]
+        budget[0] -= 1
+    for _ in range(nb):
+        vals = [g_value(d, env, ty, pool) for _ in range(d.weighted([(5, 1), (3, 2), (1, 3), (1, 4)]))]
+        cs = {"v": vals, "b": sub()}
+        if pc and d.bool(0.2):
+            cs["pc"] = 1
+        n["cs"].append(cs)
+    if dflt:
+        n["el"] = sub()
+    return n
+
+
+def number(item):
+    for i, lf in enumerate(cm.leaves_of(item["body"])):
+        lf["id"] = i + 1
+
+
+def g_wrappers(d):
+    return [[d.choice("IS"), int(d.bool(0.75))] for _ in range(d.weighted([(5, 0), (3, 1), (2, 2)]))]
+
+
+def g_item(d, idx, names, maxdepth, allow_mac, poison, wrap, maxleaf):
+    kind = "plain"
+    if allow_mac:
+        kind = d.weighted([(11, "plain"), (6, "mac"), (2, "irp"), (1, "rept")])
+    own = ["S%d_%d" % (idx, k) for k in (1, 2, 3, 4, 5, 7, 9, 12)]
+    env = dict(names=names + own, mac=0, poison=poison, wrap=wrap and kind == "plain", maxdepth=maxdepth)
+    if kind == "mac":
+        env["mac"] = d.int(1, 4)
+        env["exitm"] = True
+    elif kind in ("irp", "rept"):
+        env["irp"] = kind == "irp"
+        env["nodef"] = True
+        env["exitm"] = True
+        env["names"] = names
+        env["maxdepth"] = min(maxdepth, 3)
+        maxleaf = min(maxleaf, 10)
+    budget = [d.choice([6, 12, 25, maxleaf]) if kind in ("plain", "mac") else maxleaf]
+    body = [g_construct(d, env, 1, budget)]
+    if d.bool(0.2) and budget[0] > 3:
+        body.append(g_leaf(d, env))
+        body.append(g_construct(d, env, 1, budget))
+    it = {"body": body, "mac": None, "pf": d.int(0, 4), "sty": d.int(0, 255)}
+    if kind == "mac":
+        mac = env["mac"]
+        calls = []
+        for _ in range(d.int(1, 4)):
+            calls.append([d.choice(ARGV) for _ in range(mac)])
+        it["mac"] = {"np": mac, "calls": calls}
+        if d.bool(0.4):
+            it["mac"]["wr"] = [g_wrappers(d) for _ in calls]
+        form = d.weighted([(4, "pos"), (3, "trim"), (2, "kw"), (1, "kwrev")])
+        if form == "trim":
+            it["trim"] = 1
+        elif form != "pos":
+            it["kw"] = 1 if form == "kw" else 2
+    elif kind == "irp":
+        it["loop"] = {"k": "irp", "vals": [d.choice([0, 1, 2, 3, -1, 5]) for _ in range(d.int(1, 4))], "wr": g_wrappers(d)}
+    elif kind == "rept":
+        it["loop"] = {"k": "rept", "n": d.int(1, 3), "wr": g_wrappers(d)}
+    number(it)
+    if len(cm.leaves_of(it["body"])) > cm.MAXLEAF:
+        raise AssertionError("generator produced too many leaves")
+    return it
+
+
+@composite
+def strategy_(d, tier):
+    kind = d.weighted([(7, "prog"), (3, "mal")])
+    if kind == "mal":
+        nitems = d.int(1, 3)
+        items, names = [], []
+        for i in range(nitems):
+            items.append(g_item(d, i, names, d.int(1, 3), False, False, False, 12))
+            names += ["S%d_%d" % (i, k) for k in (1, 2, 3, 5)]
+        op = d.weighted([(6, "stray"), (3, "delete")])
+        mut = {"op": op, "pos": d.int(0, 9999), "any": int(d.bool(0.25))}
+        if op == "stray":
+            mut["stmt"] = d.int(0, len(cm.STRAYS) - 1)
+        return dict(kind="mal", cpu=d.weighted([(4, 0)] + [(1, i) for i in range(1, len(cm.CPU_NAMES))]),
+                    style=d.int(0, 255), items=items, mut=mut)
+    nitems = d.weighted([(2, 1), (3, 2), (3, 4), (2, 6), (1, 9)])
+    maxdepth = d.weighted([(1, 1), (3, 2), (3, 3), (3, 4)])
+    poison = d.bool(0.5)
+    wrap = d.bool(0.4)
+    items, names = [], []
+    for i in range(nitems):
+        it = g_item(d, i, names, maxdepth, True, poison, wrap, 40 if nitems <= 4 else 16)
+        items.append(it)
+        if not it["mac"] and not it.get("loop"):
+            names += ["S%d_%d" % (i, k) for k in (1, 2, 3, 5, 8)]
+    cpu = d.weighted([(4, 0)] + [(1, i) for i in range(1, len(cm.CPU_NAMES))])
+    size = sum(cm.slot_size(it) * (len(it["mac"]["calls"]) if it["mac"] else 1) for it in items) + 32
+    if size > cm.CPUS[cm.CPU_NAMES[cpu]]["limit"]:
+        cpu = 0
+    return dict(kind="prog", cpu=cpu, twopass=int(d.bool(0.3)), style=d.int(0, 255), items=items)
+
+
+def strategy(tier):
+    return strategy_(tier)
+
+
+def build(case):
+    return cm.Program(cm.CPU_NAMES[case["cpu"]], case["items"], twopass=bool(case.get("twopass")),
+                      style=case.get("style", 0))
+
+
+def exec_prog(case):
+    prog = build(case)
+    cpu = cm.CPU_NAMES[case["cpu"]]
+    classes = ["prog", "cpu:" + cpu, "passes:%d" % (2 if case.get("twopass") else 1), "items:%d" % len(case["items"])]
+    kinds = set()
+    depth = 0
+    nt = []
+    for it, st in zip(case["items"], prog.item_stats):
+        kinds |= st["kinds"]
+        depth = max(depth, st["depth"])
+        if it["mac"]:
+            kinds.add("macro")
+        if it.get("loop"):
+            kinds.add("loop")
+        if st["exitm"]:
+            kinds.add("exitm-taken")
+        if st["poison"]:
+            kinds.add("poison")
+        if st["warn"]:
+            kinds.add("nocasehit")
+        if st["nested_nonfirst"]:
+            nt.append("nested-nonfirst")
+        if st["ifb_mixed"]:
+            nt.append("ifb-mixed")
+        if st["overlap"]:
+            nt.append("case-overlap")
+    shp = "".join(cm.shape_of(it["body"]) for it in case["items"])
+    for t, name in (("N(", "include-wrap"), ("R(", "rept-wrap")):
+        if t in shp:
+            kinds.add(name)
+    maxbr = 0
+    for m in re.finditer(r"[IS]\(", shp):
+        pass
+    classes += sorted("c:" + k for k in kinds) + ["depth:%d" % depth] + sorted(set("nt:" + x for x in nt))
+    key = None
+    if nt:
+        key = engine.digest(shp + "|" + ";".join(",".join(map(str, st["taken"])) for st in prog.item_stats))
+    r = run_program(prog)
+    if r.timed_out:
+        return engine.inconclusive("timeout", classes)
+    bad = compare(prog, r)
+    if bad:
+        why, detail = bad
+        return engine.bad(why, key, classes, source=prog.files["t.asm"], includes={k: v for k, v in prog.files.items()
+                          if k.startswith("i") and k.endswith(".inc") and k[1:2].isdigit()}, **detail)
+    return engine.ok(key, classes)
+
+
+# ------------------------------------------------------------------ malformed programs
+
+def mutate(case):
+    """returns (files, classification, description, line number of the mutation)"""
+    prog = cm.Program(cm.CPU_NAMES[case["cpu"]], case["items"], style=case.get("style", 0))
+    lines = prog.lines
+    first = prog.first_item_line
+    mut = case["mut"]
+    if mut["op"] == "delete":
+        cands = [i for i in range(first, len(lines)) if lines[i]["role"] == "close"]
+        p = cands[mut["pos"] % len(cands)]
+        new = [l["text"] for l in lines[:p]] + [l["text"] for l in lines[p + 1:]]
+        cls, desc = "must", "deleted '%s' of line %d" % (lines[p]["text"].strip(), p + 1)
+    else:
+        stmt = cm.STRAYS[mut["stmt"]]
+        if stmt.startswith("case") and cm.CPUS[cm.CPU_NAMES[case["cpu"]]]["sw"] != "switch":
+            pass
+        allc = []
+        for i in range(first, len(lines) + 1):
+            if i < len(lines):
+                c = cm.classify_stray(stmt, lines[i]["stack"], lines[i]["act"])
+            else:
+                c = cm.classify_stray(stmt, (), True)
+            allc.append((i, c))
+        must = [x for x in allc if x[1] == "must"]
+        pool = allc if (mut.get("any") or not must) else must
+        p, cls = pool[mut["pos"] % len(pool)]
+        new = [l["text"] for l in lines[:p]] + ["\t" + stmt] + [l["text"] for l in lines[p:]]
+        st = lines[p]["stack"] if p < len(lines) else ()
+        desc = "stray '%s' before line %d (open: %s, %s)" % (
+            stmt, p + 1, "".join(s[0] + ("e" if s[1] else "") for s in st) or "-",
+            "assembled" if (p >= len(lines) or lines[p]["act"]) else "skipped")
+    files = dict(prog.files)
+    files["t.asm"] = "\n".join(new) + "\n"
+    return files, cls, desc, p + 1
+
+
+def exec_mal(case):
+    files, cls, desc, line = mutate(case)
+    mut = case["mut"]
+    what = "delete" if mut["op"] == "delete" else cm.STRAYS[mut["stmt"]].split()[0]
+    classes = ["mal", "mal:" + what, "mal-" + cls, "cpu:" + cm.CPU_NAMES[case["cpu"]]]
+    r = asl.assemble(files, args=["-n", "-i", "incd", "-D", cm.CLI_DEFS])
+    if r.timed_out:
+        return engine.inconclusive("timeout", classes)
+    errs, warns = _diag(r)
+    detail = dict(mutation=desc, source=files["t.asm"], **r.brief(600))
+    key = None
+    if cls == "must":
+        key = engine.digest("mal|" + "".join(cm.shape_of(it["body"]) for it in case["items"]) + "|" + what + "|%d" % line)
+    if r.signal:
+        return engine.bad("asl killed by signal %d: %s" % (r.signal, desc), key, classes, **detail)
+    if cls == "must":
+        if r.status != 2 or not errs:
+            return engine.bad("malformed program (%s): exit status %s with %d errors, expected >= 1 error and status 2"
+                              % (desc, r.status, len(errs)), key, classes, **detail)
+        if any(e["line"] == line for e in errs):
+            classes.append("mal-error-at-line")
+    else:
+        if r.status not in (0, 2) or (r.status == 2) != bool(errs):
+            return engine.bad("program with %s: exit status %s with %d errors" % (desc, r.status, len(errs)),
+                              key, classes, **detail)
+        classes.append("mal-noclaim-error" if errs else "mal-noclaim-clean")
+    return engine.ok(key, classes)
+
+
+REGRESSIONS = []
 
 
 def execute(case):
     if case["kind"] == "enum":
         return exec_enum(case)
+    if case["kind"] == "prog":
+        return exec_prog(case)
+    if case["kind"] == "mal":
+        return exec_mal(case)
     raise ValueError("unknown case kind")
 
 
-@composite
-def strategy_(d, tier):
-    return dict(kind="enum", single=1, lo=0, hi=10)
-
-
-def strategy(tier):
-    return strategy_(tier)
+def show(case):
+    if case["kind"] == "enum":
+        return case
+    if case["kind"] == "prog":
+        return dict(kind="prog", source=build(case).files["t.asm"][-1200:])
+    files, cls, desc, line = mutate(case)
+    return dict(kind="mal", mutation=desc, expect=cls, source=files["t.asm"][-900:])
